@@ -108,11 +108,12 @@ func reportProp(prop, tier string, seed int, runs []*HarnessRun, known []KnownFi
 			inconclusive++
 			fmt.Printf("INCONCLUSIVE property=%s harness=%s %s: %s\n", prop, ic.Harness, ic.Kind, ic.Msg)
 		}
-		for class, desc := range h.KnownHits {
+		for hk, desc := range h.KnownHits {
+			parts := strings.SplitN(hk, "|", 2)
 			for _, kf := range known {
-				if kf.Class == class && kf.Harness == h.Spec.Name && !knownPrinted[class] {
-					knownPrinted[class] = true
-					fmt.Printf("KNOWN-FINDING: property=%s %s [class %s; witness %s]\n", prop, kf.Description, class, desc)
+				if kf.Class == parts[0] && kf.Obligation == parts[1] && kf.Harness == h.Spec.Name && kf.Status != "fixed" && !knownPrinted[hk] {
+					knownPrinted[hk] = true
+					fmt.Printf("KNOWN-FINDING: property=%s %s [harness %s obligation %s class %s; witness %s]\n", prop, kf.Description, kf.Harness, kf.Obligation, parts[0], desc)
 				}
 			}
 		}
